@@ -1030,7 +1030,7 @@ def _oracle_upd(case):
         except Exception:
             if p0._is_chunked_encoded and wire == p.body and ref_ok(wire):
                 return 'rebuilt-body-doubly-chunk-encoded'
-            return 'updated-body-not-gzip'
+            return 'updated-body-not-gzip-though-content-encoding-says-gzip'
     else:
         plain = wire
     if plain != new:
@@ -1295,12 +1295,31 @@ CE_LINES = [b'Content-Encoding: gzip', b'content-encoding: gzip', b'Content-Enco
             b'Content-Encoding:']
 
 
+def _magic_bodies(rng):
+    """new bodies that look like already-encoded data: update_body must treat them as any other body
+    (a .gz upload under `Content-Encoding: gzip` is compressed once more; the receiver undoes the
+    advertised coding exactly once and must hold exactly what was passed in)"""
+    import zlib
+    inner = G.rbody(rng, rng.choice([0, 1, 30, 400]))
+    return [
+        gzip.compress(inner, mtime=0), gzip.compress(gzip.compress(inner, mtime=0), mtime=0),
+        b'\x1f\x8b', b'\x1f\x8b' + G.rbody(rng, rng.choice([1, 8, 50])), b'\x1f\x8b\x08\x00',
+        b'\x1f', b'\x8b\x1f' + inner, b'\x1f\x8c' + inner,
+        zlib.compress(inner), b'\x78\x9c', b'\x78\x01' + inner, b'\x28\xb5\x2f\xfd' + inner,   # zlib, zstd
+        b'\xce\xb2\xcf\x81' + inner, b'BZh9' + inner, b'\xfd7zXZ\x00' + inner, b'',
+    ]
+
+
 def _gen_upd(rng, thorough):
     ty, m = _gen_message(rng, thorough)
     raw = m['raw']
-    if m['framing'] != 'headerless' and rng.random() < 0.6:
-        raw = _with_header(raw, rng.choice(CE_LINES))
-    body = rng.choice([b'', b'x', b'NEWBODY', b'{"key": "modify"}', G.rbody(rng, rng.choice([1, 5, 60, 700]))])
+    magic = rng.random() < 0.3
+    if m['framing'] != 'headerless' and rng.random() < (0.9 if magic else 0.6):
+        raw = _with_header(raw, rng.choice(CE_LINES[:3] if magic and rng.random() < 0.7 else CE_LINES))
+    if magic:
+        body = rng.choice(_magic_bodies(rng))
+    else:
+        body = rng.choice([b'', b'x', b'NEWBODY', b'{"key": "modify"}', G.rbody(rng, rng.choice([1, 5, 60, 700]))])
     ct = rng.choice([b'application/json', b'text/plain', b''])
     inq = True
     if rng.random() < 0.1:
@@ -1450,6 +1469,16 @@ def corpus():
                         b'NEWBODY', b'text/plain', True))
     cs.append(_upd_case('RES', [b'HTTP/1.1 200 OK\r\nContent-Encoding: gzip\r\nTransfer-Encoding: chunked\r\n\r\n0\r\n\r\n'],
                         b'NEWBODY' * 30, b'text/plain', True))
+    # new bodies that are themselves gzip data / start with the gzip magic (or other codecs' magics),
+    # both parser types, Content-Length and chunked framing, with and without Content-Encoding: gzip
+    gzb = gzip.compress(b'an uploaded .gz file ' * 4, mtime=0)
+    for nb in (gzb, b'\x1f\x8b', b'\x1f\x8b' + b'junk\x00\xff', b'\x78\x9c\x03\x00', b'\x28\xb5\x2f\xfd\x00', b''):
+        for ty, m in (('REQ', b'POST /u HTTP/1.1\r\nHost: h\r\nContent-Encoding: gzip\r\nContent-Length: 2\r\n\r\nhi'),
+                      ('REQ', b'POST /u HTTP/1.1\r\nHost: h\r\ncontent-encoding: gzip\r\nTransfer-Encoding: chunked\r\n\r\n2\r\nhi\r\n0\r\n\r\n'),
+                      ('RES', b'HTTP/1.1 200 OK\r\nContent-Encoding: gzip\r\nContent-Length: 2\r\n\r\nhi'),
+                      ('RES', b'HTTP/1.1 200 OK\r\nContent-Encoding: gzip\r\nTransfer-Encoding: chunked\r\n\r\n2\r\nhi\r\n0\r\n\r\n'),
+                      ('REQ', b'POST /u HTTP/1.1\r\nHost: h\r\nContent-Length: 2\r\n\r\nhi')):
+            cs.append(_upd_case(ty, [m], nb, b'application/gzip', True))
     cs.append(_upd_case('RES', [b'HTTP/1.1 200 OK\r\n\r\n'], b'x', b'a/b', True))
     cs.append(_upd_case('REQ', [b'GET / HTTP/1.1\r\nConte'], b'x', b'a/b', False))
     # sequences: compressed okResponse with conn_close, then default, then no_cl (headers None throughout);
@@ -1560,6 +1589,8 @@ def describe(case):
         out.append('chunk d22class=%d' % is_d22_class(case))
     elif k == 'upd':
         out.append('upd chunked=%d' % is_chunked_upd(case))
+        out.append('upd new-body-magic=%s' % (payload(case['body'])[:2].hex() if payload(case['body'])[:2] in
+                                             (b'\x1f\x8b', b'\x78\x9c', b'\x78\x01', b'\x28\xb5') else 'other'))
     elif k == 'seq':
         out.append('seq calls=%d shared=%d' % (len(case['calls']), sum(c.get('h') == 'shared' for c in case['calls'])))
         out.append('seq fns=' + '+'.join(sorted({c['fn'] for c in case['calls']})))
